@@ -40,11 +40,19 @@ def fixed_variants(st, rng):
 
 
 def no_blank_before_wrap(L):
-    """a physical line that will be continued must not end with blanks (they are stripped: finding F10)"""
+    """a physical line that will be continued must not end with blanks (they are stripped: finding F10);
+    comment lines between the line and its continuation do not change that"""
+    n = len(L.lines)
     for k, l in enumerate(L.lines[:-1]):
-        nxt = L.lines[k + 1]
-        if l != l.rstrip() and len(nxt) > 5 and nxt[:5] == "     " and nxt[5] != " ":
-            return False
+        if l == l.rstrip():
+            continue
+        j = k + 1
+        while j < n and (L.lines[j][:1] in ("C", "c", "*", "!") or not L.lines[j].strip()):
+            j += 1
+        if j < n:
+            nxt = L.lines[j]
+            if len(nxt) > 5 and nxt[:5] == "     " and nxt[5] not in " 0":
+                return False
     return True
 
 
